@@ -91,16 +91,16 @@ Qed.
 Lemma clamp_range n i : (0 <= n -> 0 <= clamp n i <= n)%Z.
 Proof. unfold clamp. destruct (i <? 0)%Z eqn:E; lia. Qed.
 
-(* the repaired arithmetic: every chain of slices equals Python list slicing *)
+(* the current arithmetic: every chain of slices equals Python list slicing *)
 Definition inv_state (l : list fit) (L' : list fit) (st : Z * option Z) : Prop :=
   (0 <= fst st)%Z /\
   (match snd st with Some k => (0 <= k)%Z | None => True end) /\
   take_lim (snd st) (drop_z (fst st) L') = l.
 
-Lemma repaired_step L' l st sl :
+Lemma current_step L' l st sl :
   inv_state l L' st ->
   inv_state (py_slice l (fst sl) (snd sl)) L'
-            (slice_step repaired (Z.of_nat (List.length l)) (fst st) (snd st) (fst sl) (snd sl)).
+            (slice_step current (Z.of_nat (List.length l)) (fst st) (snd st) (fst sl) (snd sl)).
 Proof.
   intros [Hoff [Hlim Hwin]]. destruct st as [off lim]. destruct sl as [start stop]. simpl in *.
   set (n := Z.of_nat (List.length l)).
@@ -119,41 +119,41 @@ Proof.
   destruct lim as [k|]; [|reflexivity].
   destruct (k <? 0)%Z eqn:Ek; [reflexivity|].
   symmetry. apply firstn_skipn_firstn.
-  (* s + (e - s) <= length of the current window <= k *)
+  (* s + (e - s) <= length of the legacy window <= k *)
   assert (Hlen : (List.length l <= Z.to_nat k)%nat).
   { rewrite <- Hwin. unfold take_lim, drop_z. rewrite Ek. rewrite firstn_length. lia. }
   unfold n in *. lia.
 Qed.
 
-Theorem slices_repaired top_only L slices :
-  run_slices repaired top_only L slices = spec_slices top_only L slices.
+Theorem slices_current top_only L slices :
+  run_slices current top_only L slices = spec_slices top_only L slices.
 Proof.
   unfold run_slices, spec_slices.
   set (L' := if top_only then filter is_top L else L).
-  assert (W : forall st, window repaired top_only (fst st) (snd st) L = take_lim (snd st) (drop_z (fst st) L')).
+  assert (W : forall st, window current top_only (fst st) (snd st) L = take_lim (snd st) (drop_z (fst st) L')).
   { intro st. unfold window. simpl. reflexivity. }
   assert (G : forall slices st l, inv_state l L' st ->
             let st' := fold_left (fun (st : Z * option Z) (sl : option Z * option Z) =>
-                         let n := Z.of_nat (List.length (window repaired top_only (fst st) (snd st) L)) in
-                         slice_step repaired n (fst st) (snd st) (fst sl) (snd sl)) slices st in
-            window repaired top_only (fst st') (snd st') L =
+                         let n := Z.of_nat (List.length (window current top_only (fst st) (snd st) L)) in
+                         slice_step current n (fst st) (snd st) (fst sl) (snd sl)) slices st in
+            window current top_only (fst st') (snd st') L =
             fold_left (fun l sl => py_slice l (fst sl) (snd sl)) slices l).
   { induction slices0 as [|sl r IH]; intros st l I; simpl.
     - rewrite W. destruct I as [_ [_ I]]. exact I.
     - apply IH. rewrite W. destruct I as [I1 [I2 I3]]. rewrite I3.
-      apply repaired_step. split; [exact I1 | split; [exact I2 | exact I3]]. }
+      apply current_step. split; [exact I1 | split; [exact I2 | exact I3]]. }
   apply (G slices (0%Z, None) L').
   split; [simpl; lia | split; [exact I | reflexivity]].
 Qed.
 
-(* the current arithmetic is right for `[start:]` slices with non-negative starts when
+(* the legacy arithmetic is right for `[start:]` slices with non-negative starts when
    child fits are not filtered (or there are none) *)
 Definition open_slice (sl : option Z * option Z) : Prop :=
   snd sl = None /\ match fst sl with Some s => (0 <= s)%Z | None => True end.
 
-Lemma current_open_step (L l : list fit) off sl :
+Lemma legacy_open_step (L l : list fit) off sl :
   (0 <= off)%Z -> drop_z off L = l -> open_slice sl ->
-  let st' := slice_step current (Z.of_nat (List.length l)) off None (fst sl) (snd sl) in
+  let st' := slice_step legacy (Z.of_nat (List.length l)) off None (fst sl) (snd sl) in
   (0 <= fst st')%Z /\ snd st' = None /\ drop_z (fst st') L = py_slice l (fst sl) (snd sl).
 Proof.
   intros Hoff Hwin [Hstop Hstart]. destruct sl as [start stop]. simpl in *. subst stop.
@@ -174,23 +174,23 @@ Proof.
     rewrite Z.sub_0_r. unfold n. rewrite Nat2Z.id. symmetry. apply firstn_all.
 Qed.
 
-Theorem slices_current_open (L : list fit) slices :
-  Forall open_slice slices -> run_slices current false L slices = spec_slices false L slices.
+Theorem slices_legacy_open (L : list fit) slices :
+  Forall open_slice slices -> run_slices legacy false L slices = spec_slices false L slices.
 Proof.
   unfold run_slices, spec_slices. intro F.
   assert (G : forall slices off l, Forall open_slice slices -> (0 <= off)%Z -> drop_z off L = l ->
             let st' := fold_left (fun (st : Z * option Z) (sl : option Z * option Z) =>
-                         let n := Z.of_nat (List.length (window current false (fst st) (snd st) L)) in
-                         slice_step current n (fst st) (snd st) (fst sl) (snd sl)) slices (off, None) in
-            window current false (fst st') (snd st') L =
+                         let n := Z.of_nat (List.length (window legacy false (fst st) (snd st) L)) in
+                         slice_step legacy n (fst st) (snd st) (fst sl) (snd sl)) slices (off, None) in
+            window legacy false (fst st') (snd st') L =
             fold_left (fun l sl => py_slice l (fst sl) (snd sl)) slices l).
   { induction slices0 as [|sl r IH]; intros off l Fs Hoff Hwin; simpl.
     - unfold window. simpl. exact Hwin.
     - inversion Fs as [|x xs Hsl Hr]. subst x xs.
-      assert (Ew : window current false off None L = l) by (unfold window; simpl; exact Hwin).
+      assert (Ew : window legacy false off None L = l) by (unfold window; simpl; exact Hwin).
       rewrite Ew.
-      destruct (current_open_step L l off sl Hoff Hwin Hsl) as [H1 [H2 H3]].
-      destruct (slice_step current (Z.of_nat (List.length l)) off None (fst sl) (snd sl)) as [off' lim'] eqn:Est.
+      destruct (legacy_open_step L l off sl Hoff Hwin Hsl) as [H1 [H2 H3]].
+      destruct (slice_step legacy (Z.of_nat (List.length l)) off None (fst sl) (snd sl)) as [off' lim'] eqn:Est.
       simpl in H1, H2, H3. subst lim'. apply IH; assumption. }
   apply (G slices 0%Z L F); [lia | reflexivity].
 Qed.
